@@ -42,3 +42,19 @@ Definition chk_forward (c : net * list (list Q) * list (list Q) * list (list (li
     end
     && forallb (fun wo => qcl_eqb (ref_qc n (fst wo) x) (snd wo)) (combine Wc impl_s))
     (combine (seq 0 (length X)) X).
+
+(* boolean forms of the premises of C12_forward_is_ref, evaluated on the implementation's nets *)
+Definition layered_b (n : net) : bool :=
+  let hid := hidden n in
+  nodupb (n_in n ++ hid ++ n_out n)
+  && forallb (fun c => (rank_of n (fst c) <? rank_of n (snd c))
+                       && (mem (fst c) (n_in n) || mem (fst c) hid)
+                       && (mem (snd c) hid || mem (snd c) (n_out n))) (n_con n)
+  && forallb (fun v => existsb (fun c => snd c =? v) (n_con n)) (hid ++ n_out n)
+  && nodupb (map fst (n_act n))
+  && set_eq (map fst (n_act n)) (hid ++ n_out n).
+Definition sm_same_b (n : net) : bool :=
+  let sm := map fst (filter (fun p => snd p =? 5) (n_act n)) in
+  forallb (fun u => forallb (fun v =>
+     natlist_eqb (map fst (entries (n_con n) u)) (map fst (entries (n_con n) v))) sm) sm.
+Definition chk_premises (n : net) : bool := layered_b n && sm_same_b n.
